@@ -4,8 +4,7 @@
      closure        C01: pos_ok is preserved by every accepted move (Preserve6.move_exact), under the representation limit
      hint moves     C03: every accepted move is Equal to a generated one (AllMovesFacts3.allmoves_complete)
      live => child  C04: LegalMoveLive.live_has_legal_move, with C02's "GameOver always answers" (GameOverFacts4.game_over_iff)
-   What remains a hypothesis is [within d p]: in the tree of depth d below p no unfinished position has more than 690 generated
-   moves (the loop fuel of the MODEL Search.v is 700; the Go code has no such limit) and no accepted move builds a stack higher
+   What remains a hypothesis is [within d p]: in the tree of depth d below p no accepted move builds a stack higher
    than 64 (the representation limit of C01: beyond it the engine itself is wrong, PreserveOver64.v).  SearchNeg3.v proves
    [within] outright for boards up to 5x5 with at most 51 pieces in the game. *)
 From Coq Require Import NArith ZArith List Bool Lia.
@@ -42,19 +41,19 @@ Definition supply (p : position) : Prop :=
 Definition base_ok (p : position) : Prop :=
   pos_ok p /\ (total p <= 255)%N /\ (0 <= move p)%Z /\ supply p.
 
-(* the tree of depth d below p stays inside what the model (690 generated moves per node) and the engine's representation
-   (stacks of at most 64) can hold; nothing is asked below a finished game *)
+(* the tree of depth d below p stays inside what the engine's representation (stacks of at most 64) can hold; nothing is asked
+   below a finished game.  (The loops of the model Search.v are bounded by the number of generated moves of the node itself -
+   Search.gfuel, SearchGen.gfuel_ok - so no bound on the number of moves is needed.) *)
 Fixpoint within (d : nat) (p : position) : Prop :=
   match d with
   | O => True
   | S d' => is_over p = false ->
-            (length (all_moves p) <= 690)%nat /\
             forall m q, Refine.mv p m = Ok q -> heights64 q /\ within d' q
   end.
 
 Lemma within_le d : forall p, within (S d) p -> within d p.
 Proof.
-  induction d; intros p H; [exact I|]. intros EO. destruct (H EO) as (L & K). split; [exact L|].
+  induction d; intros p H; [exact I|]. intros EO. pose proof (H EO) as K.
   intros m q E. destruct (K m q E) as (H64 & W). split; [exact H64|]. apply IHd. exact W.
 Qed.
 
@@ -132,8 +131,6 @@ Definition PosW (d : nat) (p : position) : Prop := base_ok p /\ within d p.
 Lemma PosW_closed d p q : PosW (S d) p -> is_over p = false -> In q (children gen_basis p) -> PosW d q.
 Proof.
   intros (Hb & W) EO Hq. apply in_children_mv in Hq. destruct Hq as (m & _ & E).
-  destruct (W EO) as (_ & K). destruct (K m q E) as (H64 & Wq).
+  pose proof (W EO) as K. destruct (K m q E) as (H64 & Wq).
   split; [apply (base_ok_step p m q Hb E H64)|exact Wq].
 Qed.
-Lemma PosW_len d p : PosW (S d) p -> is_over p = false -> (Z.of_nat (length (all_moves p)) <= 690)%Z.
-Proof. intros (_ & W) EO. destruct (W EO) as (L & _). lia. Qed.
